@@ -608,9 +608,18 @@ func (exec *Executor) executeDecimalMethod(
 		}
 	}
 
-	// Round to the scale.
+	// Round to the scale. Pow10 returns 0 for scales below the range of
+	// float64, where every float64 rounds to 0, and +Inf for scales beyond it,
+	// where, as when num*ratio overflows, num has no digits that far out to
+	// round. Dividing by either would produce NaN or Inf.
 	ratio := math.Pow10(scale)
-	rounded := math.Round(num*ratio) / ratio
+	rounded := num
+	switch scaled := num * ratio; {
+	case ratio == 0:
+		rounded = 0
+	case !math.IsInf(ratio, 0) && !math.IsInf(scaled, 0):
+		rounded = math.Round(scaled) / ratio
+	}
 
 	// Count the digits before the decimal point.
 	numStr := strconv.FormatFloat(rounded, 'f', -1, 64)
